@@ -49,6 +49,10 @@ pub struct Ref {
     pub block_name: Vec<Option<String>>,
     /// per module: assignment name -> identifiers of the items it produces
     pub attribution: Vec<BTreeMap<String, BTreeSet<String>>>,
+    /// per module: assignment name -> every identifier that vanishes when it is left out
+    /// (including items of its dependents)
+    #[serde(default)]
+    pub raw: Vec<BTreeMap<String, BTreeSet<String>>>,
 }
 
 fn parse_plan(v: &Value) -> Plan {
@@ -133,6 +137,16 @@ fn faulted_set(p: &Plan) -> (ModuleSet, Vec<(usize, String, String)>) {
         }
     }
     (s, renamed)
+}
+
+fn block_ident_counts(b: Option<&ModBlock>) -> BTreeMap<String, usize> {
+    let mut m = BTreeMap::new();
+    if let Some(b) = b {
+        for k in b.item_keys() {
+            *m.entry(proj::key_ident(&k)).or_insert(0) += 1;
+        }
+    }
+    m
 }
 
 fn block_idents(b: Option<&ModBlock>) -> BTreeSet<String> {
@@ -231,7 +245,7 @@ impl Scenario for C10Faults {
                     name = names0.difference(&names).next().cloned();
                 }
             }
-            let full = block_idents(blocks0.iter().find(|b| Some(&b.name) == name.as_ref()));
+            let full = block_ident_counts(blocks0.iter().find(|b| Some(&b.name) == name.as_ref()));
             let mut diff: BTreeMap<String, BTreeSet<String>> = BTreeMap::new();
             for ai in 0..p.set.modules[mi].assigns.len() {
                 let mut s2 = p.set.clone();
@@ -241,8 +255,8 @@ impl Scenario for C10Faults {
                     continue;
                 }
                 let b2 = proj::modules_of(&o.generated, rust).unwrap_or_default();
-                let less = block_idents(b2.iter().find(|b| Some(&b.name) == name.as_ref()));
-                diff.insert(removed.name.clone(), full.difference(&less).cloned().collect());
+                let less = block_ident_counts(b2.iter().find(|b| Some(&b.name) == name.as_ref()));
+                diff.insert(removed.name.clone(), full.iter().filter(|(k, n)| less.get(*k).copied().unwrap_or(0) < **n).map(|(k, _)| k.clone()).collect());
             }
             // items that vanish with `d` only because a dependent of `d` vanishes belong to the dependent
             let mut attr = BTreeMap::new();
@@ -261,6 +275,7 @@ impl Scenario for C10Faults {
             }
             rf.block_name.push(name);
             rf.attribution.push(attr);
+            rf.raw.push(diff);
         }
         serde_json::to_value(&rf).unwrap()
     }
@@ -443,29 +458,47 @@ impl Scenario for C10Faults {
             let (Some(k0), Some(k1)) = (b0.iter().find(|b| Some(&b.name) == rf.block_name[mi].as_ref()), b1.iter().find(|b| Some(&b.name) == rf.block_name[mi].as_ref())) else {
                 continue;
             };
-            for a in &m.assigns {
-                let key = (mi, a.name.clone());
-                if faulted.contains(&key) || affected.contains(&key) {
+            // An item key may occur more than once in a block (a top-level type and the derived name
+            // of another type's anonymous member can coincide), so items are compared per key as
+            // multisets of token texts, and a key is judged only if NONE of the definitions that own
+            // an item of that identifier is faulted or depends on a faulted one.
+            let mut keys: Vec<String> = k0.items.iter().map(|(k, _)| k.clone()).collect();
+            keys.sort();
+            keys.dedup();
+            for k in keys {
+                let ident = proj::key_ident(&k);
+                let owners: Vec<&String> = m.assigns.iter().map(|a| &a.name).filter(|n| rf.attribution[mi].get(*n).is_some_and(|it| it.contains(&ident))).collect();
+                if owners.is_empty() || owners.iter().any(|n| faulted.contains(&(mi, (*n).clone())) || affected.contains(&(mi, (*n).clone()))) {
                     continue;
                 }
-                let Some(items) = rf.attribution[mi].get(&a.name) else { continue };
-                for (k, text0) in &k0.items {
-                    if !items.contains(&proj::key_ident(k)) {
-                        continue;
+                // an identifier that (also) vanishes when a faulted definition is left out may be an
+                // item of that definition under a coinciding name: not judged
+                let touched = m.assigns.iter().any(|a| {
+                    (faulted.contains(&(mi, a.name.clone())) || affected.contains(&(mi, a.name.clone()))) && rf.raw.get(mi).and_then(|r| r.get(&a.name)).is_some_and(|it| it.contains(&ident))
+                });
+                if touched {
+                    continue;
+                }
+                let mut t0: Vec<&String> = k0.items.iter().filter(|(kk, _)| kk == &k).map(|(_, t)| t).collect();
+                let mut t1: Vec<&String> = k1.items.iter().filter(|(kk, _)| kk == &k).map(|(_, t)| t).collect();
+                t0.sort();
+                t1.sort();
+                compared += t0.len() as u64;
+                if t0 != t1 {
+                    let lost_silently = owners.iter().any(|n| silent.iter().any(|(_, s)| s == *n));
+                    if t1.len() < t0.len() && lost_silently {
+                        continue; // already reported by the accounting oracle
                     }
-                    compared += 1;
-                    match k1.items.iter().find(|(kk, _)| kk == k) {
-                        Some((_, text1)) if text1 == text0 => {}
-                        Some((_, text1)) => out.violate(
-                            "warnings-are-local",
-                            format!("item `{k}` of definition {} (which does not depend on a faulted definition) changed: fault-free `{}` / faulted `{}`; {ctx}", a.name, crate::core::truncate(text0, 300), crate::core::truncate(text1, 300)),
+                    out.violate(
+                        "warnings-are-local",
+                        format!(
+                            "item `{k}` of definition(s) {:?} (which do not depend on a faulted definition) {}: fault-free `{}` / faulted `{}`; {ctx}",
+                            owners,
+                            if t1.len() < t0.len() { "disappeared" } else { "changed" },
+                            crate::core::truncate(&t0.iter().map(|s| s.as_str()).collect::<Vec<_>>().join(" || "), 300),
+                            crate::core::truncate(&t1.iter().map(|s| s.as_str()).collect::<Vec<_>>().join(" || "), 300)
                         ),
-                        None => {
-                            if !silent.iter().any(|(_, n)| n == &a.name) {
-                                out.violate("warnings-are-local", format!("item `{k}` of definition {} (which does not depend on a faulted definition) disappeared; {ctx}", a.name));
-                            }
-                        }
-                    }
+                    );
                 }
             }
         }
